@@ -135,6 +135,65 @@ def s20_aggregate(ctx, drv=None, name="S20-aggregate"):
     return res
 
 
+def gather_case(kinds):
+    """real gather_subsample_descriptions + group_gathered_subsamples on a result list of the given kinds; returns (kept indices, groups)"""
+    from fractopo.analysis.subsampling import gather_subsample_descriptions, group_gathered_subsamples
+
+    names = ["kb11", "geta1", "Geta1"]
+    results = []
+    for i, k in enumerate(kinds):
+        results.append({"Name": names[i % 3], "Area": 10.0 + i, "i": i} if k == "d" else None if k == "n" else ("not a dict", i) if i % 2 else [i])
+    kept = gather_subsample_descriptions(results)
+    groups = {k: [d["i"] for d in v] for k, v in group_gathered_subsamples(kept).items()} if kept else {}
+    return [d["i"] for d in kept], groups
+
+
+def s20_gather(ctx):
+    """the step between subsample_networks and the grouping, with FAILED samples (None) anywhere in the list"""
+    import_fractopo()
+    res = StreamResult("S20-gather", rule="result lists of 1..14 entries as subsample_networks returns them (3 networks interleaved): descriptions, None for failed samples (first, "
+                       "in the middle, last, several, all), non-dict results; the real gather_subsample_descriptions vs the regenerated one (Lean, compiled) and vs the "
+                       "statement: exactly the descriptions survive, in order, and after group_gathered_subsamples each is in exactly one group, under its own name; "
+                       "non-trivial = a failed sample is followed by a description")
+    rng = rng_for(ctx.seed, "S20ga")
+    cases = [list("dnd"), list("ndd"), list("ddn"), list("dndnd"), list("nnn"), list("d"), list("n"), list("dxd"), list("dnxdnd"), list("dddddndddddd")]
+    for _ in range(budget(ctx.tier, 200, 4000)):
+        n = rng.randint(1, 14)
+        p_none = rng.choice([0.0, 0.1, 0.3, 0.6])
+        cases.append([("n" if rng.random() < p_none else "x" if rng.random() < 0.08 else "d") for _ in range(n)])
+    if ctx.gen is None:
+        res.note = "gen_c20 not built (a generated module is broken): the regenerated code is not compared, the statement still is"
+        res.skipped["generated_driver_not_built"] = 1
+        resps = [None] * len(cases)
+    else:
+        resps = ctx.gen.parallel(["gather kinds=" + ",".join(c) for c in cases])
+    names = ["kb11", "geta1", "Geta1"]
+    for c, resp in zip(cases, resps):
+        res.evaluations += 1
+        want = [i for i, k in enumerate(c) if k == "d"]
+        if any(k == "n" and "d" in c[i + 1:] for i, k in enumerate(c)):
+            res.nontrivial += 1
+        res.distribution["failed_samples"] = res.distribution.get("failed_samples", 0) + c.count("n")
+        case = {"stream": "S20-gather", "kinds": c}
+        try:
+            kept, groups = gather_case(c)
+        except Exception as e:
+            res.disagreements.append(Disagreement("S20-gather", case, want, f"{type(e).__name__}: {e}", True, "gathering raised"))
+            continue
+        if resp is not None:
+            model = [int(x) for x in parse_resp(resp).get("kept", "").split(",") if x != ""]
+            if model != kept:
+                res.disagreements.append(Disagreement("S20-gather", case, model, kept, None, "regenerated gather_subsample_descriptions (Lean) and the Python function disagree"))
+                continue
+        flat = sorted(i for v in groups.values() for i in v)
+        if kept != want:
+            res.disagreements.append(Disagreement("S20-gather", case, want, kept, True, "successful descriptions are lost (or failed ones kept) between sampling and grouping"))
+        elif flat != want or not all(names[i % 3] == k for k, v in groups.items() for i in v):
+            res.disagreements.append(Disagreement("S20-gather", case, want, groups, True, "after grouping, not every successful description is in exactly one group under its own name"))
+    res.samples = [{"kinds": cases[3], "response": resps[3]}]
+    return res
+
+
 def s20_generated_group(ctx):
     if ctx.gen is None:
         r = StreamResult("S20-generated-group", note="gen_c20 not built (a generated module is broken): skipped")
@@ -206,7 +265,7 @@ def s20_circles(ctx):
     return res
 
 
-STREAMS = [s20_group, s20_aggregate, s20_circles, s20_generated_group, s20_generated_aggregate]
+STREAMS = [s20_group, s20_gather, s20_aggregate, s20_circles, s20_generated_group, s20_generated_aggregate]
 
 
 def replay(ctx, stream, case):
@@ -217,6 +276,12 @@ def replay(ctx, stream, case):
     if stream == "S20-generated-aggregate":
         r = s20_generated_aggregate(ctx)
         return r.disagreements[0] if r.disagreements else None
+    if stream == "S20-gather":
+        c = case["kinds"]
+        kept, groups = gather_case(c)
+        want = [i for i, k in enumerate(c) if k == "d"]
+        ok = kept == want and sorted(i for v in groups.values() for i in v) == want
+        return None if ok else Disagreement(stream, case, want, {"kept": kept, "groups": groups}, True, "successful descriptions are lost between sampling and grouping")
     if stream == "S20-group":
         from fractopo.analysis.subsampling import group_gathered_subsamples
 
